@@ -52,30 +52,31 @@ def nontrivial(b):
              for s in b)
 
 
-def models(ctx, jobs, workers):
-  res = tlc.run_many([dict(spec_dir="lb", module="MCLoadBalancer", cfg=cfg, tag="X07", timeout=2400, workers=workers)
-                      for cfg, _, _ in jobs], parallel=4)
-  for (cfg, name, need), r in zip(jobs, res):
+def tlc_jobs(ctx, mc_jobs, ex_cfgs, sim):
+  """every TLC run of the check in one pool: the model-checking runs (several workers each) next to the export runs
+  (single-threaded).  Returns {export cfg: behaviours}, simulated behaviours."""
+  jobs = [dict(spec_dir="lb", module="MCLoadBalancer", cfg=cfg, tag="X07", timeout=2400, workers=3)
+          for cfg, _, _ in mc_jobs]
+  jobs += [dict(spec_dir="lb", module="MCLoadBalancer", cfg=c, workers=1, coverage=False, tag="X07", timeout=2400)
+           for c in ex_cfgs]
+  jobs.append(dict(spec_dir="lb", module="MCLoadBalancer", cfg=sim[0], workers=1, coverage=False, tag="X07",
+                   timeout=2400, **sim[1]))
+  res = tlc.run_many(jobs, parallel=8)
+  for (cfg, name, need), r in zip(mc_jobs, res):
     if r.violated:
       raise tlc.TLCError("spec violates its own property %s (%s):\n%s" % (r.violated, cfg, r.error_trace[:4000]))
     tlc.require_coverage(r, need, name)
     ctx.add_model(name, r)
-
-
-def exports(cfgs, sims):
-  """all export runs concurrently (each is single-threaded): edge covers + the simulations"""
-  jobs = [dict(spec_dir="lb", module="MCLoadBalancer", cfg=c, workers=1, coverage=False, tag="X07", timeout=2400)
-          for c in cfgs]
-  for c, kw in sims:
-    jobs.append(dict(spec_dir="lb", module="MCLoadBalancer", cfg=c, workers=1, coverage=False, tag="X07",
-                     timeout=2400, **kw))
-  res = tlc.run_many(jobs, parallel=8)
+    r.stdout = ""
   out = {}
-  for c, r in zip(cfgs, res):
+  for c, r in zip(ex_cfgs, res[len(mc_jobs):]):
+    r.stdout = ""
     out[c] = [sort_sets(b) for b in r.tagged("T")]
+    r.prints = []
     if not out[c]:
       raise tlc.TLCError("no behaviours exported by " + c)
-  return out, [[sort_sets(b) for b in r.tagged("H")] for r in res[len(cfgs):]]
+  res[-1].stdout = ""
+  return out, [sort_sets(b) for b in res[-1].tagged("H")]
 
 
 def sample(behs, n, seed):
@@ -133,17 +134,17 @@ def run(ctx):
              ("MC_n5t.cfg", "5 servers (2 answer), W1 A3 M4 I2, 1 buffer", [x for x in no_other if x != "Advance"]),
              ("MC_strict.cfg", "Strict = TRUE (no ServerCrash): 2 servers, 1 connection",
               [x for x in no_other if x != "ServerCrash"])]
-  models(ctx, jobs, workers=4)
-  # 2. spec -> code: every transition of the abstract graphs (quick: a seeded sample that contains every action)
-  plans = [("EX_edges_n1.cfg", P_N1, 700 if quick else 8000),
-           ("EX_edges_n2.cfg", P_N2, 900 if quick else 8000),
-           ("EX_edges_n5.cfg", P_N5, 600 if quick else 8000)]
-  if not quick:
-    plans += [("EX_edges_n2xl.cfg", P_N2, 6000), ("EX_edges_n2f.cfg", P_N2Z, 6000),
-              ("EX_edges_n1f.cfg", dict(P_N1, B=0), 6000)]
+  # 2. spec -> code: the transitions of the abstract graphs (a deterministic 1-in-k sample taken inside TLC - see
+  #    LoadBalancer!ExportS - of which a seeded subset that contains every action is replayed)
+  if quick:
+    plans = [("EXQ_edges_n1.cfg", P_N1, 1500), ("EXQ_edges_n2.cfg", P_N2, 1800), ("EXQ_edges_n5.cfg", P_N5, 1200)]
+  else:
+    plans = [("EXT_edges_n1.cfg", P_N1, 8000), ("EXT_edges_n2.cfg", P_N2, 9000), ("EX_edges_n5.cfg", P_N5, 6000),
+             ("EXT_edges_n2xl.cfg", P_N2, 6000), ("EXT_edges_n2f.cfg", P_N2Z, 6000),
+             ("EX_edges_n1f.cfg", dict(P_N1, B=0), 7000)]
   nsim = 30 if quick else 400
-  exported, sims = exports([p[0] for p in plans],
-                           [("EX_sim.cfg", dict(simulate=dict(num=nsim), depth=121, seed=ctx.seed + 1))])
+  exported, simbehs = tlc_jobs(ctx, jobs, [p[0] for p in plans],
+                               ("EX_sim.cfg", dict(simulate=dict(num=nsim), depth=121, seed=ctx.seed + 1)))
   seen_via = set()
   last_ok = None
   for cfg, params, n in plans:
@@ -157,9 +158,9 @@ def run(ctx):
       cands = [behs[i] for i in core.replay.last_ok if behs[i][-1]["via"] in ("ClientKnown", "ClientNew")]
       if cands:
         last_ok = (params, cands[0])
-    ctx.notes["replay_" + cfg[3:-4]] = dict(exported=total, replayed=len(behs), params=params, **st)
+    ctx.notes["replay_" + cfg[:-4]] = dict(exported=total, replayed=len(behs), params=params, **st)
   # 3. random deep behaviours (mid-size constants: memory 15 s, idle 3 s, 3 buffers, 3 connections, all traffic kinds)
-  behs = sims[0]
+  behs = simbehs
   if len(behs) < nsim // 2:
     raise tlc.TLCError("simulation exported %d behaviours" % len(behs))
   st = core.replay(ctx, ADAPTER, behs, params=P_SIM, nontrivial=nontrivial, chunk=4)
